@@ -51,6 +51,8 @@ T9 = {
     "disasm/tms9900.cpp": ["list_output_tms9900", "disasm_range_tms9900"],
     "disasm/msp430.cpp": ["list_output_msp430_both", "disasm_range_msp430_both"],
     "disasm/z80.cpp": ["list_output_z80", "disasm_range_z80"],
+    "disasm/mips.cpp": ["disasm_range_mips"],
+    "disasm/mips.h": ["disasm_range_mips"],
     "disasm/z80.h": ["list_output_z80", "disasm_range_z80"],
     "disasm/6800.cpp": ["list_output_6800", "disasm_range_6800"],
     "disasm/6800.h": ["list_output_6800", "disasm_range_6800"],
@@ -203,6 +205,7 @@ EXTRACT = [
     ("disasm/msp430.cpp", r"^(?:extern \"C\" |static )?void disasm_range_msp430_both\(", "disasm_range_msp430_both.inc"),
     ("disasm/z80.cpp", r"^(?:extern \"C\" )?void list_output_z80\(", "list_output_z80.inc"),
     ("disasm/z80.cpp", r"^(?:extern \"C\" )?void disasm_range_z80\(", "disasm_range_z80.inc"),
+    ("disasm/mips.cpp", r"^(?:extern \"C\" )?void disasm_range_mips\(", "disasm_range_mips.inc"),
     ("core/AsmContext.cpp", r"^int AsmContext::link\(\)", "AsmContext_link.inc"),
     ("core/Linker.cpp", r"^uint8_t \*Linker::get_code_from_symbol\(", "Linker_get_code_from_symbol.inc"),
     ("core/UtilContext.cpp", r"^void UtilContext::print8\(const char \*token\)", "UtilContext_print8.inc"),
